@@ -51,6 +51,13 @@ def run(prog, tier):
     from ._families import borrow
     borrow(R, P, "BUILDER", prog, c04.check_builder_paths, builder_table(prog), floor=14)
     borrow(R, P, "BUILDER", prog, c04.check_parity, floor=1)
+    # both tools must build the same graph from the same seed: the seeding discipline of C07, for cnfgen and pbgen alike
+    from . import c07
+    from ..callgraph import Resolver
+    res = Resolver(prog)
+    consumers = c07.rng_consumers(prog)
+    borrow(R, P, "SEED", prog, lambda r, p: c07.check_seed_order(r, p, res, consumers), floor=2)
+    borrow(R, P, "SEED", prog, c07.check_seed_truthy, floor=1)
     return R
 
 
